@@ -4,7 +4,7 @@ sampling, D(**values) on real domain objects and logs fixed-point integers."""
 import itertools, math, torch
 import torchphysics as tp
 from torchphysics.problem.spaces import Points, Space
-from .common import main, watched
+from .common import main, watched, pick
 from .. import universe as U
 from . import c05
 
@@ -162,7 +162,11 @@ def run_one(s):
         bind = {n: v for n, v in s["bind"].items() if n in names}
         rest = [n for n in names if n not in bind]
         pe = {"bind": {n: v * U.F for n, v in bind.items()}, "exc": ""}
-        r = watched(lambda: dom(**{n: float(v) for n, v in bind.items()}))
+        # the bound values are written as python floats or as one-element tensors of rank 0, 1 or 2
+        form = pick(s["tid"], 4, 9)
+        pe["form"] = form
+        mkv = [float, lambda v: torch.tensor(float(v)), lambda v: torch.tensor([float(v)]), lambda v: torch.tensor([[float(v)]])][form]
+        r = watched(lambda: dom(**{n: mkv(v) for n, v in bind.items()}))
         if r[0] != "ok":
             pe["exc"] = r[1] if len(r) > 1 else "hang"
         else:
